@@ -17,6 +17,8 @@ structure DState where
 def modelStep (d : DState) (op : List String) (_obs : List (List String)) : DState × List String :=
   match op with
   | ["run"] =>
+    -- `-p` (every test in its own process) is not part of the writer model: such a run is only judged by the oracle
+    if d.reg.separate then (d, []) else
     (d, ["out " ++ Proto.hex (TeamCity.streamV (d.reg.verbosity == 2) (runAll d.reg.filter d.reg.scripts))])
   | ["skip"] => (d, [])
   | w =>
@@ -60,15 +62,19 @@ inductive Want
   | testFailed (t : TestInfo) (file : Text.Bytes) (line : Nat) (details : Text.Bytes)
 deriving Inhabited
 
-def wantTest (t : Script) : List Want :=
+/-- `separate` = the run used `-p`: the test's own failures are reported by its child process, and the
+    runner adds one more ("Failed in separate process", located at the test) when the child failed -/
+def wantTest (separate : Bool) (t : Script) : List Want :=
   if t.info.willRun then
-    [.testStarted t.info.name] ++ (scriptFailures t.info t.acts).map (fun (f, l, m) => .testFailed t.info f l m) ++
+    let fs := scriptFailures t.info t.acts
+    let extra := if separate && !fs.isEmpty then [(t.info.file, t.info.line, lit "Failed in separate process")] else []
+    [.testStarted t.info.name] ++ (fs ++ extra).map (fun (f, l, m) => .testFailed t.info f l m) ++
       [.testFinished t.info.name]
   else [.testStarted t.info.name, .testIgnored t.info.name, .testFinished t.info.name]
 
-def wantAll (flt : Option Filter) (scripts : List Script) : List Want :=
+def wantAll (separate : Bool) (flt : Option Filter) (scripts : List Script) : List Want :=
   (groupRuns scripts).flatMap fun (g, ts) =>
-    [.suiteStarted g] ++ (ts.filter (fun t => shouldRun flt t.info)).flatMap wantTest ++ [.suiteFinished g]
+    [.suiteStarted g] ++ (ts.filter (fun t => shouldRun flt t.info)).flatMap (wantTest separate) ++ [.suiteFinished g]
 
 /-- readable rendering of a byte string inside a one-line reason: printable ASCII as is, the rest as \xNN -/
 def showB (b : Text.Bytes) : String :=
@@ -124,7 +130,7 @@ def specRun (reg : Reg) (out : Text.Bytes) : Option String :=
     else if !(failuresInOpenTest none msgs) then
       some "a failure message does not belong to the currently open test (its name is not the name announced by testStarted, or no test is open)"
     else if !(balanced msgs) then some "messages are not balanced (suite/test start and finish do not pair up)"
-    else matchAll 0 (wantAll reg.filter scripts) (msgs.filter (fun m => !(isText m)))
+    else matchAll 0 (wantAll reg.separate reg.filter scripts) (msgs.filter (fun m => !(isText m)))
 
 def specAll (ops : List Proto.Op) : Option String :=
   let rec go (reg : Reg) (i : Nat) : List Proto.Op → Option String
@@ -132,7 +138,10 @@ def specAll (ops : List Proto.Op) : Option String :=
     | o :: rest =>
       match o.op with
       | ["run"] =>
-        let outs := o.obs.filterMap fun l => match l with | ["out", h] => Proto.unhex? h | _ => none
+        let outs := o.obs.filterMap fun l => match l with
+          | ["out", h] => Proto.unhex? h
+          | ["outp", h] => Proto.unhex? h       -- stream of a `-p` run (real I/O sub-mode)
+          | _ => none
         match outs with
         | [out] =>
           match specRun reg out with
